@@ -52,7 +52,23 @@ def full_name(h):
     return "::".join([x for x in (mp, h.mod, h.name) if x])
 
 
+def quick_sets():
+    p = os.path.join(VERIF, "lib", "quick_sets.json")
+    if os.path.exists(p):
+        return json.load(open(p))
+    return {}
+
+
 def select(harnesses, prop, tier, only=None):
+    qs = quick_sets().get(prop)
+    if tier == "quick" and qs:
+        missing = [n for n in qs if n not in harnesses]
+        if missing:
+            raise InfraError("lib/quick_sets.json names unknown harnesses: %s" % missing)
+        sel = [harnesses[n] for n in qs]
+        if only:
+            sel = [h for h in sel if any(o in h.name for o in only)]
+        return sorted(sel, key=lambda h: h.name)
     sel = []
     for h in harnesses.values():
         for p in h.props:
